@@ -417,6 +417,9 @@ def _step(s: Store, op: dict, exc_log: list):
             else:
                 h.errors2 = assigned
             return "ok"
+        if name == "set_adaptive":
+            s.get(op["h"]).set_adaptive(bool(op.get("value", True)))
+            return "ok"
         if name == "copy":
             s.set(op["out"], s.get(op["h"]).copy(include_frequencies=op.get("with_freq", True)))
             return "ok"
